@@ -35,7 +35,9 @@ var detFns []string
 func deterministicFunctions() []string {
 	if detFns == nil {
 		for _, f := range gen.FunctionNames() {
-			if !gen.NonDeterministic[f] {
+			// has_error(x) returns the error *message* of x as a value; messages quote the expression
+			// text (e.g. the spelling of a missing name) and are deliberately not compared
+			if !gen.NonDeterministic[f] && f != "has_error" {
 				detFns = append(detFns, f)
 			}
 		}
